@@ -399,15 +399,17 @@ def oracle(case, res, dump):
                 if want is None:
                     continue
                 own = want["members"].get(to)
+                # a node that was told late switches only at its next stored beacon: what it does with the partials of the
+                # transition round and of the round it then syncs belongs to that (known) cause
+                late = told.get((to, want["id"]), {}).get("late") and e["round"] <= want["tr"] + 1
+                cls = "-late" if late else ""
                 if e["why"] in ("refused:not-member", "refused:invalid-sig") and e["round"] == e["ha"] + 1 and want["id"] in e["valid"] \
                         and e["idx"] in want["members"].values() and e["idx"] != own and e["ha"] >= want["tr"]:
-                    flag("R.refused", f"node {to} (head {e['ha']}, group of epoch {want['id']}) refused ({e['why']}) the valid partial of index {e['idx']} for round "
-                                      f"{e['round']} sent by member node {e['from']}")
+                    flag("R.refused" + cls, f"node {to} (head {e['ha']}, group of epoch {want['id']}) refused ({e['why']}) the valid partial of index {e['idx']} for round "
+                                            f"{e['round']} sent by member node {e['from']}")
                 if e["why"] != "ok" or e["round"] <= e["ha"] or e["idx"] == own:
                     continue
                 # the partial went into `to`'s aggregator while `to` had stored `ha` >= tr-1 of `want`
-                late = told.get((to, want["id"]), {}).get("late") and e["ha"] == want["tr"] - 1
-                cls = "-late" if late else ""
                 if want["id"] not in e["valid"]:
                     flag("R.old-share" + cls, f"node {to} (head {e['ha']}, group of epoch {want['id']} in force from round {want['tr']}) let in a partial of index {e['idx']} "
                                               f"for round {e['round']} sent by node {e['from']} that verifies only under the polynomial of epoch(s) {e['valid']}")
